@@ -115,4 +115,38 @@ ASSUME
   /\ FloatDenote(<<49, 101, 49, 50, 51, 52, 53, 54>>) = None   \* "1e123456"
   /\ FloatDenote(<<45, 45, 49>>) = None   \* "--1"
   /\ FloatDenote(<<>>) = None   \* ""
+
+(* hand cases at the real formats (independent of TypeTab and LBits) *)
+ASSUME
+  /\ IntHi(RealTypes["x"]).m = FromDigits(<<9, 2, 2, 3, 3, 7, 2, 0, 3, 6, 8, 5, 4, 7, 7, 5, 8, 0, 7>>, 10) /\ IntLo(RealTypes["x"]).m = FromDigits(<<9, 2, 2, 3, 3, 7, 2, 0, 3, 6, 8, 5, 4, 7, 7, 5, 8, 0, 8>>, 10)   \* INT64_MAX / INT64_MIN
+  /\ IntHi(RealTypes["t"]).m = FromDigits(<<1, 8, 4, 4, 6, 7, 4, 4, 0, 7, 3, 7, 0, 9, 5, 5, 1, 6, 1, 5>>, 10) /\ IsZero(IntLo(RealTypes["t"]).m)   \* UINT64_MAX
+  /\ IntHi(RealTypes["i"]).m = FromDigits(<<2, 1, 4, 7, 4, 8, 3, 6, 4, 7>>, 10) /\ IntHi(RealTypes["u"]).m = FromDigits(<<4, 2, 9, 4, 9, 6, 7, 2, 9, 5>>, 10)
+  /\ IntHi(RealTypes["n"]).m = FromInt(32767) /\ IntLo(RealTypes["n"]).m = FromInt(32768) /\ IntHi(RealTypes["q"]).m = FromDigits(<<6, 5, 5, 3, 5>>, 10)
+  /\ IntHi(RealTypes["b"]).m = FromInt(127) /\ IntLo(RealTypes["c"]).m = FromInt(128) /\ IntHi(RealTypes["y"]).m = FromInt(255)
+  /\ NumCmp(MaxFin(RealTypes["f"]), IntNum(0, FromDigits(<<3, 4, 0, 2, 8, 2, 3, 4, 6, 6, 3, 8, 5, 2, 8, 8, 5, 9, 8, 1, 1, 7, 0, 4, 1, 8, 3, 4, 8, 4, 5, 1, 6, 9, 2, 5, 4, 4, 0>>, 10))) = 0   \* FLT_MAX
+  /\ NumCmp(MaxFin(RealTypes["d"]), Fin(0, FromDigits(<<9, 0, 0, 7, 1, 9, 9, 2, 5, 4, 7, 4, 0, 9, 9, 1>>, 10), 971)) = 0 /\ QMin(RealTypes["d"]) = -1074 /\ QMin(RealTypes["f"]) = -149 /\ QMin(RealTypes["e"]) = -16445   \* DBL_MAX, smallest subnormals
+  /\ (InFormat(RealTypes["f"], Fin(0, FromDigits(<<1, 3, 4, 2, 1, 7, 7, 3>>, 10), -27)) /\ Neighbour(RealTypes["f"], FloatDenote(<<48, 46, 49>>), Fin(0, FromDigits(<<1, 3, 4, 2, 1, 7, 7, 3>>, 10), -27))) = TRUE   \* "0.1" ~ 13421773*2^-27
+  /\ (InFormat(RealTypes["f"], Fin(0, FromDigits(<<1, 3, 4, 2, 1, 7, 7, 2>>, 10), -27)) /\ Neighbour(RealTypes["f"], FloatDenote(<<48, 46, 49>>), Fin(0, FromDigits(<<1, 3, 4, 2, 1, 7, 7, 2>>, 10), -27))) = TRUE   \* "0.1" ~ 13421772*2^-27
+  /\ (InFormat(RealTypes["f"], Fin(0, FromDigits(<<1, 3, 4, 2, 1, 7, 7, 4>>, 10), -27)) /\ Neighbour(RealTypes["f"], FloatDenote(<<48, 46, 49>>), Fin(0, FromDigits(<<1, 3, 4, 2, 1, 7, 7, 4>>, 10), -27))) = FALSE   \* "0.1" ~ 13421774*2^-27
+  /\ (InFormat(RealTypes["f"], Fin(0, FromDigits(<<1, 3, 4, 2, 1, 7, 7, 1>>, 10), -27)) /\ Neighbour(RealTypes["f"], FloatDenote(<<48, 46, 49>>), Fin(0, FromDigits(<<1, 3, 4, 2, 1, 7, 7, 1>>, 10), -27))) = FALSE   \* "0.1" ~ 13421771*2^-27
+  /\ (InFormat(RealTypes["f"], Fin(0, FromDigits(<<1, 6, 7, 7, 7, 2, 1, 5>>, 10), 104)) /\ Neighbour(RealTypes["f"], FloatDenote(<<49, 101, 51, 57>>), Fin(0, FromDigits(<<1, 6, 7, 7, 7, 2, 1, 5>>, 10), 104))) = TRUE   \* "1e39" ~ 16777215*2^104
+  /\ (InFormat(RealTypes["f"], Fin(0, FromDigits(<<1>>, 10), 127)) /\ Neighbour(RealTypes["f"], FloatDenote(<<49, 101, 51, 57>>), Fin(0, FromDigits(<<1>>, 10), 127))) = FALSE   \* "1e39" ~ 1*2^127
+  /\ (InFormat(RealTypes["f"], Fin(0, FromDigits(<<1>>, 10), -149)) /\ Neighbour(RealTypes["f"], FloatDenote(<<49, 101, 45, 52, 54>>), Fin(0, FromDigits(<<1>>, 10), -149))) = TRUE   \* "1e-46" ~ 1*2^-149
+  /\ (InFormat(RealTypes["f"], Fin(0, FromDigits(<<1>>, 10), -148)) /\ Neighbour(RealTypes["f"], FloatDenote(<<49, 101, 45, 52, 54>>), Fin(0, FromDigits(<<1>>, 10), -148))) = FALSE   \* "1e-46" ~ 1*2^-148
+  /\ Neighbour(RealTypes["f"], FloatDenote(<<49, 101, 45, 52, 54>>), Fin(0, Zero, 0))   \* "1e-46" ~ 0
+  /\ ~Neighbour(RealTypes["f"], FloatDenote(<<49, 101, 45, 52, 52>>), Fin(0, Zero, 0))   \* "1e-44" is above the smallest subnormal
+  /\ (InFormat(RealTypes["f"], Fin(0, FromDigits(<<1>>, 10), 24)) /\ Neighbour(RealTypes["f"], FloatDenote(<<49, 54, 55, 55, 55, 50, 49, 55>>), Fin(0, FromDigits(<<1>>, 10), 24))) = TRUE   \* "16777217" ~ 1*2^24
+  /\ (InFormat(RealTypes["f"], Fin(0, FromDigits(<<8, 3, 8, 8, 6, 0, 9>>, 10), 1)) /\ Neighbour(RealTypes["f"], FloatDenote(<<49, 54, 55, 55, 55, 50, 49, 55>>), Fin(0, FromDigits(<<8, 3, 8, 8, 6, 0, 9>>, 10), 1))) = TRUE   \* "16777217" ~ 8388609*2^1
+  /\ (InFormat(RealTypes["f"], Fin(0, FromDigits(<<4, 1, 9, 4, 3, 0, 5>>, 10), 2)) /\ Neighbour(RealTypes["f"], FloatDenote(<<49, 54, 55, 55, 55, 50, 49, 55>>), Fin(0, FromDigits(<<4, 1, 9, 4, 3, 0, 5>>, 10), 2))) = FALSE   \* "16777217" ~ 4194305*2^2
+  /\ (InFormat(RealTypes["d"], Fin(0, FromDigits(<<5, 9, 6, 0, 4, 6, 4, 4, 7, 7, 5, 3, 9, 0, 6, 2>>, 10), 24)) /\ Neighbour(RealTypes["d"], FloatDenote(<<49, 101, 50, 51>>), Fin(0, FromDigits(<<5, 9, 6, 0, 4, 6, 4, 4, 7, 7, 5, 3, 9, 0, 6, 2>>, 10), 24))) = TRUE   \* "1e23" ~ 5960464477539062*2^24
+  /\ (InFormat(RealTypes["d"], Fin(0, FromDigits(<<5, 9, 6, 0, 4, 6, 4, 4, 7, 7, 5, 3, 9, 0, 6, 3>>, 10), 24)) /\ Neighbour(RealTypes["d"], FloatDenote(<<49, 101, 50, 51>>), Fin(0, FromDigits(<<5, 9, 6, 0, 4, 6, 4, 4, 7, 7, 5, 3, 9, 0, 6, 3>>, 10), 24))) = TRUE   \* "1e23" ~ 5960464477539063*2^24
+  /\ (InFormat(RealTypes["d"], Fin(0, FromDigits(<<5, 9, 6, 0, 4, 6, 4, 4, 7, 7, 5, 3, 9, 0, 6, 4>>, 10), 24)) /\ Neighbour(RealTypes["d"], FloatDenote(<<49, 101, 50, 51>>), Fin(0, FromDigits(<<5, 9, 6, 0, 4, 6, 4, 4, 7, 7, 5, 3, 9, 0, 6, 4>>, 10), 24))) = FALSE   \* "1e23" ~ 5960464477539064*2^24
+  /\ (InFormat(RealTypes["d"], Fin(0, FromDigits(<<9, 0, 0, 7, 1, 9, 9, 2, 5, 4, 7, 4, 0, 9, 9, 1>>, 10), 971)) /\ Neighbour(RealTypes["d"], FloatDenote(<<49, 46, 55, 57, 55, 54, 57, 51, 49, 51, 52, 56, 54, 50, 51, 49, 53, 55, 101, 51, 48, 56>>), Fin(0, FromDigits(<<9, 0, 0, 7, 1, 9, 9, 2, 5, 4, 7, 4, 0, 9, 9, 1>>, 10), 971))) = TRUE   \* "1.7976931348623157e308" ~ 9007199254740991*2^971
+  /\ (InFormat(RealTypes["d"], Fin(0, FromDigits(<<9, 0, 0, 7, 1, 9, 9, 2, 5, 4, 7, 4, 0, 9, 9, 1>>, 10), 971)) /\ Neighbour(RealTypes["d"], FloatDenote(<<49, 46, 56, 101, 51, 48, 56>>), Fin(0, FromDigits(<<9, 0, 0, 7, 1, 9, 9, 2, 5, 4, 7, 4, 0, 9, 9, 1>>, 10), 971))) = TRUE   \* "1.8e308" ~ 9007199254740991*2^971
+  /\ (InFormat(RealTypes["d"], Fin(0, FromDigits(<<9, 0, 0, 7, 1, 9, 9, 2, 5, 4, 7, 4, 0, 9, 9, 0>>, 10), 971)) /\ Neighbour(RealTypes["d"], FloatDenote(<<49, 46, 56, 101, 51, 48, 56>>), Fin(0, FromDigits(<<9, 0, 0, 7, 1, 9, 9, 2, 5, 4, 7, 4, 0, 9, 9, 0>>, 10), 971))) = FALSE   \* "1.8e308" ~ 9007199254740990*2^971
+  /\ (InFormat(RealTypes["d"], Fin(0, FromDigits(<<1>>, 10), -1074)) /\ Neighbour(RealTypes["d"], FloatDenote(<<52, 46, 57, 101, 45, 51, 50, 52>>), Fin(0, FromDigits(<<1>>, 10), -1074))) = TRUE   \* "4.9e-324" ~ 1*2^-1074
+  /\ (InFormat(RealTypes["d"], Fin(0, FromDigits(<<1>>, 10), -1)) /\ Neighbour(RealTypes["d"], FloatDenote(<<48, 46, 53>>), Fin(0, FromDigits(<<1>>, 10), -1))) = TRUE   \* "0.5" ~ 1*2^-1
+  /\ (InFormat(RealTypes["d"], Fin(0, FromDigits(<<4, 5, 0, 3, 5, 9, 9, 6, 2, 7, 3, 7, 0, 4, 9, 7>>, 10), -53)) /\ Neighbour(RealTypes["d"], FloatDenote(<<48, 46, 53>>), Fin(0, FromDigits(<<4, 5, 0, 3, 5, 9, 9, 6, 2, 7, 3, 7, 0, 4, 9, 7>>, 10), -53))) = FALSE   \* "0.5" ~ 4503599627370497*2^-53
+  /\ ~Neighbour(RealTypes["d"], FloatDenote(<<48, 46, 53>>), Fin(1, One, -1))   \* sign
+  /\ Neighbour(RealTypes["f"], Neg(FloatDenote(<<48, 46, 49>>)), Fin(1, FromDigits(<<1, 3, 4, 2, 1, 7, 7, 3>>, 10), -27))
 =============================================================================
